@@ -219,11 +219,15 @@ def runCItem (eid : Nat) (it : CItem) : M Unit := do
   | .httpCallAccessDone sub h action params a ms =>
     let _ ← connEnqueue sub.cid (.httpCallAccess h sub.uid action params a ms)
     removeCount eid 1
+  | .httpAuthDone cid h a ms next =>
+    let _ ← connEnqueue cid (.httpAuthAnswer h a ms next)
+    removeCount eid 1
   | .callDone k a =>
     let cid := match k with
       | .call cid _ _ => cid
       | .auth cid _ => cid
       | .httpCall cid _ _ _ => cid
+      | .httpMapped cid _ _ _ => cid
       | .access s => s.cid
     let _ ← connEnqueue cid (.callAnswer k a)
     removeCount eid 1
